@@ -1,7 +1,8 @@
 """Front end: locate and extract function bodies from the *current* source under REPO.
 
-The extraction drops exactly: docstrings, comments (not part of the AST), and decorators other than
-property / x.setter / x.deleter / staticmethod (listed per function in the evidence).  Name mangling
+The extraction drops exactly: docstrings and comments (not part of the AST).  Decorators: property / x.setter / x.deleter /
+staticmethod define the member's role; `_cache(CACHE_SIZE)` (cachedsearch) is proved to be the identity decorator by its own
+obligation; any other decorator changes what the name denotes and is a STRUCT failure (the function left the subset).  Name mangling
 (`self.__x` inside `class K` -> `_K__x`) is applied with CPython's rule.
 """
 import ast
@@ -98,6 +99,17 @@ def _role(fn):
     return role, kept
 
 
+# decorators that may stay on a function under contract; each needs its own justification elsewhere in /verif
+ALLOWED_DECORATORS = {"_cache(CACHE_SIZE)"}     # checks/seq_props.py: cache_decorator_obligation (identity in the fallback branch)
+
+
+def _check_decorators(relpath, cls, fn, kept):
+    bad = [d for d in kept if d not in ALLOWED_DECORATORS]
+    if bad:
+        raise StructError("%s%s in %s is wrapped by the decorator(s) %s: the name no longer denotes the function body the contract "
+                          "is about" % ((cls + ".") if cls else "", fn.name, relpath, ", ".join("@" + b for b in bad)))
+
+
 def class_node(relpath, cls):
     tree = parse(relpath)
     for n in tree.body:
@@ -113,6 +125,7 @@ def members(relpath, cls):
     for fn in c.body:
         if isinstance(fn, ast.FunctionDef):
             role, kept = _role(fn)
+            _check_decorators(relpath, cls, fn, kept)
             out[(mangle(cls, fn.name), role)] = FuncInfo(relpath, cls, fn.name, role, fn, strip_doc(fn.body), kept)
     return out
 
@@ -123,6 +136,7 @@ def get_function(relpath, cls, name, role="method"):
         for n in tree.body:
             if isinstance(n, ast.FunctionDef) and n.name == name:
                 _, kept = _role(n)
+                _check_decorators(relpath, None, n, kept)
                 return FuncInfo(relpath, None, name, "function", n, strip_doc(n.body), kept)
         raise StructError("function %s not found in %s" % (name, relpath))
     ms = members(relpath, cls)
